@@ -236,7 +236,7 @@ pub fn def() -> PropertyDef {
         families: vec![
             Family { name: "tree", max_len: 200, quick: 60_000, thorough: 1_500_000, run: run_tree },
             Family { name: "fd", max_len: 160, quick: 80_000, thorough: 2_000_000, run: run_fd },
-            Family { name: "scale", max_len: 96, quick: 8_000, thorough: 120_000, run: run_scale },
+            Family { name: "scale", max_len: 96, quick: 8_000, thorough: 80_000, run: run_scale },
         ],
         fixed: vec![],
         witnesses: vec![],
